@@ -326,12 +326,25 @@ class Writer(BaseValidator):
         assert row_to_write is not None
         assert self._delegated_writer is not None
 
-        if self.location.line >= self._header:
-            self.validate_row(row_to_write)
-        if self.cid.data_format.format == data.FORMAT_FIXED:
+        is_row_to_validate = self.location.line >= self._header
+        can_be_padded = (
+            self.cid.data_format.format == data.FORMAT_FIXED
+            and len(row_to_write) == len(self.cid.field_formats)
+            and all(isinstance(item, str) for item in row_to_write)
+        )
+        if can_be_padded:
+            # Validate the row the way it is going to be written (and read again): with "ab" and "ab  "
+            # being the same value of a fixed field, in particular concerning checks for unique or distinct values.
             actual_row_to_write = self._padded_fixed_row(row_to_write)
+            if is_row_to_validate:
+                self.validate_row(actual_row_to_write)
         else:
-            actual_row_to_write = row_to_write
+            if is_row_to_validate:
+                self.validate_row(row_to_write)
+            if self.cid.data_format.format == data.FORMAT_FIXED:
+                actual_row_to_write = self._padded_fixed_row(row_to_write)
+            else:
+                actual_row_to_write = row_to_write
         self._delegated_writer.write_row(actual_row_to_write)
 
     def write_rows(self, rows_to_write):
